@@ -874,6 +874,32 @@ func init() {
 			}
 			fmt.Fprintf(&sb, "/-- control skeleton of `%s` (%s) -/\ndef %s : List String := %s\n\n", a.fn, a.file, a.lean, leanStrList(c.c06Ctl(fd.Body.List)))
 		}
+		// ---- main.go: the Before hook (global output switches, then the funcs files)
+		c.Fingerprint("main.go", "buildApp")
+		hook := false
+		if fd := c.Func("main.go", "buildApp"); fd != nil {
+			ast.Inspect(fd, func(n ast.Node) bool {
+				as, ok := n.(*ast.AssignStmt)
+				if !ok || len(as.Lhs) != 1 || len(as.Rhs) != 1 || c10txt(c, as.Lhs[0]) != "app.Before" {
+					return true
+				}
+				var fl *ast.FuncLit
+				ast.Inspect(as.Rhs[0], func(m ast.Node) bool {
+					if l, isLit := m.(*ast.FuncLit); isLit && fl == nil {
+						fl = l
+					}
+					return fl == nil
+				})
+				if fl != nil && !hook {
+					hook = true
+					fmt.Fprintf(&sb, "/-- control skeleton of the `app.Before` hook (main.go) -/\ndef beforeHookCtl : List String := %s\n\n", leanStrList(c.c06Ctl(fl.Body.List)))
+				}
+				return false
+			})
+		}
+		if !hook {
+			sb.WriteString(untranslatable("beforeHookCtl"))
+		}
 		sb.WriteString("end Rare.Gen.C10\n")
 		return sb.String()
 	})
